@@ -331,7 +331,7 @@ def _guards(run, guards, call):
     for nm, g in guards:
         run.checks += 1
         run.nontrivial = True
-        bad = present.changed(g)
+        bad = present.changed(g, run)
         if bad:
             run.fail("own.htm", {"call": call, "arg": nm, "present": g["kind"]},
                      "htm %s modified its %s argument (%s): %s" % (call, nm, g["kind"], bad))
